@@ -1362,6 +1362,190 @@ example :
     (run {} sch).armed = false ∧ (run {} sch).present = true := by decide
 
 /-! ## the tree store on its own, for all tree ids at once (`Model/C11Store.lean`) -/
+/-! ### the life of a token refines `unborn → creating → running → finished`
+
+`phase s tok`: 3 = marked finished (`instancesInfo`), 2 = listed and its creation completed (`Set` done), 1 = listed, the
+creation still under way (between the listing and `Set`), 0 = the server knows nothing of it.  Every step of the model —
+any thread, any `Done`, expiry, local start, failing constructor, peer traffic — moves every token's phase forward or not
+at all: nothing is ever listed again once finished, nothing falls back to "unknown" (which would let the next message
+create it again), a completed creation is not undone.  Holds from EVERY state, not only the reachable ones. -/
+
+def phase (s : St) (tok : Nat) : Nat :=
+  if tok ∈ s.doneToks then 3 else if tok ∈ s.settled then 2 else if tok ∈ s.live then 1 else 0
+
+theorem phase_mono_of (s s' : St) (tok : Nat) (h1 : ∀ x ∈ s.doneToks, x ∈ s'.doneToks)
+    (h2 : ∀ x ∈ s.settled, x ∈ s'.settled ∨ x ∈ s'.doneToks) (h3 : ∀ x ∈ s.live, x ∈ s'.live ∨ x ∈ s'.doneToks) :
+    phase s tok ≤ phase s' tok := by
+  unfold phase
+  by_cases hd : tok ∈ s.doneToks
+  · simp [hd, h1 tok hd]
+  · simp only [hd, if_false]
+    by_cases hs : tok ∈ s.settled
+    · simp only [hs, if_true]
+      rcases h2 tok hs with h | h
+      · by_cases hd' : tok ∈ s'.doneToks <;> simp [hd', h]
+      · simp [h]
+    · simp only [hs, if_false]
+      by_cases hl : tok ∈ s.live
+      · simp only [hl, if_true]
+        rcases h3 tok hl with h | h
+        · by_cases hd' : tok ∈ s'.doneToks
+          · simp [hd']
+          · by_cases hs' : tok ∈ s'.settled <;> simp [hd', hs', h]
+        · simp [h]
+      · simp [hl]
+
+private theorem mem_filter_ne (l : List Nat) (t x : Nat) (hx : x ∈ l) : x ∈ l.filter (· != t) ∨ x = t := by
+  by_cases e : x = t
+  · exact .inr e
+  · exact .inl (List.mem_filter.mpr ⟨hx, by simp [e]⟩)
+
+theorem phase_stepTh (s s' : St) (i : Nat) (t : Th) (hs : stepTh s i t = some s') (tok : Nat) :
+    phase s tok ≤ phase s' tok := by
+  obtain ⟨t0, m0, pc0⟩ := t
+  have same : ∀ x : St, x.doneToks = s.doneToks → x.settled = s.settled → x.live = s.live → phase s tok ≤ phase x tok := by
+    intro x e1 e2 e3
+    exact phase_mono_of s x tok (by rw [e1]; exact fun _ h => h) (by rw [e2]; exact fun _ h => .inl h)
+      (by rw [e3]; exact fun _ h => .inl h)
+  cases pc0 with
+  | lookup => simp only [stepTh] at hs; simp at hs; subst hs; apply same <;> (unfold lookupStep; split <;> rfl)
+  | flushed => simp only [stepTh] at hs; simp at hs; subst hs; apply same <;> (unfold lookupStep; split <;> rfl)
+  | parked => simp [stepTh] at hs
+  | fin => simp [stepTh] at hs
+  | found =>
+    simp only [stepTh] at hs
+    split at hs
+    · simp at hs
+    · split at hs
+      · simp at hs; subst hs; exact same _ rfl rfl rfl
+      · split at hs
+        · simp at hs; subst hs; exact same _ rfl rfl rfl
+        · split at hs
+          · simp at hs; subst hs; exact same _ rfl rfl rfl
+          · simp at hs; subst hs
+            exact phase_mono_of _ _ tok (fun _ h => h) (fun _ h => .inl h) (fun x h => .inl (by simp [h]))
+  | set =>
+    simp only [stepTh] at hs; simp at hs; subst hs
+    refine phase_mono_of _ _ tok (fun _ h => h) (fun x h => .inl ?_) (fun _ h => .inl h)
+    simp only; split <;> simp [h]
+  | bind => simp only [stepTh] at hs; simp at hs; subst hs; exact same _ rfl rfl rfl
+
+/-- **one step never moves a token backwards** -/
+theorem c11_phase_step (s s' : St) (a : Act) (hs : step s a = some s') (tok : Nat) : phase s tok ≤ phase s' tok := by
+  have same : ∀ x : St, x.doneToks = s.doneToks → x.settled = s.settled → x.live = s.live → phase s tok ≤ phase x tok := by
+    intro x e1 e2 e3
+    exact phase_mono_of s x tok (by rw [e1]; exact fun _ h => h) (by rw [e2]; exact fun _ h => .inl h)
+      (by rw [e3]; exact fun _ h => .inl h)
+  cases a with
+  | arrive t m => simp [step] at hs; subst hs; exact same _ rfl rfl rfl
+  | thread i =>
+    simp only [step] at hs
+    split at hs
+    · rename_i t _; exact phase_stepTh s s' i t hs tok
+    · simp at hs
+  | done t =>
+    simp only [step] at hs
+    split at hs
+    · simp at hs; subst hs
+      refine phase_mono_of _ _ tok (fun x h => by simp [h]) (fun x h => ?_) (fun x h => ?_)
+      · rcases mem_filter_ne s.settled t x h with h' | h'
+        · exact .inl h'
+        · exact .inr (by simp [h'])
+      · rcases mem_filter_ne s.live t x h with h' | h'
+        · exact .inl h'
+        · exact .inr (by simp [h'])
+    · split at hs
+      · simp at hs; subst hs; exact Nat.le_refl _
+      · simp at hs
+  | expire =>
+    simp only [step] at hs
+    split at hs
+    · simp at hs; subst hs; exact same _ rfl rfl rfl
+    · simp at hs
+  | localStart t =>
+    simp only [step] at hs
+    split at hs
+    · simp at hs
+    · simp at hs; subst hs
+      exact phase_mono_of _ _ tok (fun _ h => h) (fun _ h => .inl h) (fun x h => .inl (by simp [h]))
+  | peerReq => simp [step] at hs; subst hs; exact same _ rfl rfl rfl
+  | treeResp =>
+    simp only [step] at hs
+    split at hs
+    · simp at hs; subst hs; exact same _ rfl rfl rfl
+    · simp at hs
+  | doneRefused t =>
+    simp only [step] at hs
+    split at hs
+    · simp at hs; subst hs; exact Nat.le_refl _
+    · simp at hs
+  | ctorFail i _ =>
+    simp only [step] at hs
+    split at hs
+    · rename_i t _
+      split at hs
+      · simp at hs; subst hs
+        refine phase_mono_of _ _ tok (fun x h => by simp [h]) (fun x h => ?_) (fun x h => ?_)
+        · rcases mem_filter_ne s.settled t.tok x h with h' | h'
+          · exact .inl h'
+          · exact .inr (by simp [h'])
+        · rcases mem_filter_ne s.live t.tok x h with h' | h'
+          · exact .inl h'
+          · exact .inr (by simp [h'])
+      · simp at hs
+    · simp at hs
+
+/-- **refinement of the token life cycle over runs**: from any state, along any schedule, the phase of every token only
+grows — a finished token stays finished (`phase = 3` is final), a listed one is never forgotten -/
+theorem c11_lifecycle_refines (as : List Act) (s : St) (tok : Nat) : phase s tok ≤ phase (run s as) tok := by
+  induction as generalizing s with
+  | nil => exact Nat.le_refl _
+  | cons a as ih =>
+    simp only [run]
+    cases h : step s a with
+    | none => exact ih s
+    | some s' => exact Nat.le_trans (c11_phase_step s s' a h tok) (ih s')
+
+/-- in reachable states the phases are what they are called: a finished token is not listed, a token whose creation
+has completed is listed -/
+theorem c11_phases_exclusive (as : List Act) (tok : Nat) :
+    (phase (run {} as) tok = 3 → tok ∉ (run {} as).live) ∧ (phase (run {} as) tok = 2 → tok ∈ (run {} as).live) := by
+  have hi := inv_run as {} inv_init
+  refine ⟨fun h => ?_, fun h => ?_⟩
+  · apply hi.disj tok
+    unfold phase at h
+    by_cases hd : tok ∈ (run {} as).doneToks
+    · exact hd
+    · simp only [hd, if_false] at h
+      split at h
+      · omega
+      · split at h <;> omega
+  · apply hi.sub tok
+    unfold phase at h
+    by_cases hd : tok ∈ (run {} as).doneToks
+    · simp [hd] at h
+    · simp only [hd, if_false] at h
+      by_cases hs : tok ∈ (run {} as).settled
+      · exact hs
+      · simp only [hs, if_false] at h
+        split at h <;> omega
+
+/-- the variant a developer may want ("the done markers pile up: drop them together with the released tree", seeded change
+C11r3-A): expiry forgets the marks — a finished token falls back to `unborn`, and the next late message creates it again -/
+def stepForget (s : St) : Act → Option St
+  | .expire => if s.armed then some { s with present := false, armed := false, requested := false, doneToks := [] } else none
+  | a => step s a
+
+/-- negation witness: with `stepForget` the phase of token 1 goes 3 → 0 -/
+theorem c11_forgetting_marks_breaks_lifecycle :
+    ∃ s s', stepForget s .expire = some s' ∧ phase s 1 = 3 ∧ phase s' 1 = 0 := by
+  refine ⟨{ present := true, armed := true, used := true, doneToks := [1], constructed := [1] }, _, rfl, by decide, by decide⟩
+
+/-- non-vacuity: token 1 passes through all four phases; token 2's constructor fails: 0 → 1 → 2 → 3 without ever running -/
+example : phase (run {} [.localStart 1]) 1 = 1 ∧ phase (run {} [.localStart 1, .thread 0]) 1 = 2 ∧
+    phase (run {} [.localStart 1, .thread 0, .thread 0, .done 1]) 1 = 3 ∧
+    phase (run {} [.localStart 1, .thread 0, .thread 0, .arrive 2 5, .thread 1, .thread 1, .thread 1, .ctorFail 1 false]) 2 = 3 := by decide
+
 namespace Store
 open C11.Store
 
